@@ -10,6 +10,11 @@ import (
 	"github.com/deepteams/webp/internal/container"
 )
 
+// maxOutputSize is the largest file Assemble writes: webp.Decode, DecodeConfig,
+// GetFeatures and animation.Decode refuse inputs above webp.MaxInputSize
+// (256 MiB), so a larger file could not be read back.
+const maxOutputSize = 256 * 1024 * 1024
+
 // FrameOptions specifies per-frame parameters for animated WebP.
 type FrameOptions struct {
 	Duration    int
@@ -330,6 +335,9 @@ func (m *Muxer) hasAlpha() bool {
 // assembleSimple writes a simple (non-extended) WebP file.
 func (m *Muxer) assembleSimple(w io.Writer) error {
 	frame := m.frames[0]
+	if uint64(len(frame.data))+21 > maxOutputSize {
+		return fmt.Errorf("mux: output too large (%d bytes of image data, the decoders accept at most %d)", len(frame.data), maxOutputSize)
+	}
 	chunkID := detectBitstreamType(frame.data)
 	chunkSize := uint32(len(frame.data))
 	paddedChunkSize := chunkSize
@@ -436,6 +444,9 @@ func (m *Muxer) assembleExtended(w io.Writer) error {
 
 	if riffPayload64 > uint64(math.MaxUint32) {
 		return fmt.Errorf("mux: RIFF payload too large (%d bytes, exceeds 4GB limit)", riffPayload64)
+	}
+	if 8+riffPayload64 > maxOutputSize {
+		return fmt.Errorf("mux: output too large (%d bytes, the decoders accept at most %d)", 8+riffPayload64, maxOutputSize)
 	}
 	riffPayload := uint32(riffPayload64)
 
